@@ -140,8 +140,44 @@ func HarnessC07Decorated() {
 	}()
 	vrt.Assert(g.Publish("t", newMsg(0)) == nil, "publish")
 	vrt.Assert(sub.Close() == nil, "Close of the decorated Pub/Sub returns")
+	vrt.Assert(vrt.IsClosed(ch) || vrt.ChanLen(ch) > 0, "after Close has returned the decorated output channel is closed")
 	vrt.AtQuiescence(func() {
 		vrt.Assert(vrt.IsClosed(ch) || vrt.ChanLen(ch) > 0, "the decorated output channel is closed after Close")
 		vrt.Assert(vrt.Live("message.(*messageTransformSubscriberDecorator)") == 0, "no decorator goroutine remains after Close")
 	})
+}
+
+// HarnessC07DecoratedSubscribeClose: Subscribe on a decorated subscriber racing with Close: after Close has
+// returned, the output channel of a subscription that was established is closed and no pump remains.
+func HarnessC07DecoratedSubscribeClose() {
+	g := NewGoChannel(Config{}, watermill.NopLogger{})
+	sub, err := message.MessageTransformSubscriberDecorator(func(m *message.Message) {})(g)
+	vrt.Assert(err == nil, "decorated")
+	var ch <-chan *message.Message
+	subscribed := make(chan struct{})
+	go func() {
+		c, err := sub.Subscribe(context.Background(), "t")
+		if err == nil {
+			ch = c
+		}
+		close(subscribed)
+	}()
+	vrt.Assert(sub.Close() == nil, "Close returns")
+	closedAtReturn := true
+	select {
+	case <-subscribed:
+		if ch != nil {
+			closedAtReturn = vrt.IsClosed(ch)
+		}
+	default:
+		// Subscribe still in progress when Close returned: nothing to check at this instant
+	}
+	<-subscribed
+	vrt.AtQuiescence(func() {
+		if ch != nil {
+			vrt.Assert(vrt.IsClosed(ch), "a subscription made around Close ends up closed")
+		}
+		vrt.Assert(vrt.Live("message.(*messageTransformSubscriberDecorator)") == 0, "no decorator goroutine remains")
+	})
+	_ = closedAtReturn
 }
